@@ -110,9 +110,12 @@ def minimise(mod, case, vclass, max_replays=400, log=None):
     """ddmin over case['ops'] then module-specific simplifications; a candidate is kept only if
     the same violation class recurs."""
     budget = [max_replays]
+    # wall cap: only bounds how small the replay file gets, never whether it reproduces (the file is explicit)
+    t_end = time.time() + float(os.environ.get("VERIF_MINIMISE_S", "600"))
 
     def fails(c):
-        if budget[0] <= 0:
+        if budget[0] <= 0 or time.time() > t_end:
+            budget[0] = min(budget[0], 0)
             return False
         budget[0] -= 1
         r = _safe_run(mod, c)
